@@ -162,6 +162,24 @@ impl Backend {
         self.update_document(url, &content, language_id).await
     }
 
+    /// Re-process a document after its dictionaries or the configuration changed.
+    ///
+    /// An open document is re-processed from the text the client last sent: the file on disk does
+    /// not contain the user's unsaved edits (and an untitled buffer has no file at all).
+    async fn refresh_document(&self, url: &Url) -> Result<()> {
+        let open_text = {
+            let doc_lock = self.doc_state.lock().await;
+            doc_lock
+                .get(url)
+                .map(|doc_state| doc_state.document.get_full_string())
+        };
+
+        match open_text {
+            Some(text) => self.update_document(url, &text, None).await,
+            None => self.update_document_from_file(url, None).await,
+        }
+    }
+
     async fn update_document(
         &self,
         url: &Url,
@@ -562,7 +580,7 @@ impl LanguageServer for Backend {
                     .await
                     .map_err(|err| error!("{err}"))
                     .err();
-                self.update_document_from_file(&file_url, None)
+                self.refresh_document(&file_url)
                     .await
                     .map_err(|err| error!("{err}"))
                     .err();
@@ -593,7 +611,7 @@ impl LanguageServer for Backend {
                     .await
                     .map_err(|err| error!("{err}"))
                     .err();
-                self.update_document_from_file(&file_url, None)
+                self.refresh_document(&file_url)
                     .await
                     .map_err(|err| error!("{err}"))
                     .err();
@@ -665,7 +683,7 @@ impl LanguageServer for Backend {
         };
 
         for url in urls {
-            self.update_document_from_file(&url, None)
+            self.refresh_document(&url)
                 .await
                 .map_err(|err| error!("{err}"))
                 .err();
